@@ -93,6 +93,9 @@ class ExprMixin(ExecBase):
         if n in st.locals:
             yield st.locals[n], st
             return
+        if n == "cls" and self.info and self.info.get("kind") == "classmethod" and "." in self.contract.key:
+            yield GlobalRef("class", self.contract.key.split(".")[0]), st
+            return
         g = self.resolve_global(n)
         if g is None:
             raise UnsupportedError(f"unknown name {n} at line {node.lineno}")
